@@ -333,6 +333,8 @@ func delAllArgs(args []argsKV, key string) []argsKV {
 			n--
 			args[n] = tmp
 			args = args[:n]
+			// the next pair has moved into position i
+			i--
 		}
 	}
 	return args
